@@ -39,8 +39,8 @@ pub const OWNER: &str = "owner";
 pub const USERS: [&str; 5] = ["alice", "bobby", "carol", "david", "erin0"];
 /// the two whitelisted bonding denoms
 pub const DENOMS: [&str; 2] = ["uamp", "ubwh"];
-/// a native denom that is NOT whitelisted
-pub const JUNK: &str = "ujunk";
+/// a native denom that is NOT whitelisted (a look-alike of a whitelisted one: denoms are case sensitive)
+pub const JUNK: &str = "uAMP"; // differs from the whitelisted "uamp" only in letter case
 /// distribution asset of the fee distributor (unless `dist_is_bond0`)
 pub const FEE: &str = "uwhale";
 pub const DAY: u64 = 86_400_000_000_000;
